@@ -30,9 +30,10 @@ def dump_tree(t):
         return ('E',)
     if len(st) == 1:
         fb = t._firstbucket
-        if fb is None or fb._next is not None or fb.__getstate__()[0] != st[0][0]:
-            return ('I', st[0][0], 'bad-firstbucket')
-        return ('I', st[0][0])
+        bstate = st[0][0]
+        if fb is None or fb._next is not None or fb.__getstate__() != bstate:
+            return ('I', bstate[0], 'bad-firstbucket')
+        return ('I', bstate[0])
     ttype = type(t)
     ids = {}
     objs = []
@@ -65,7 +66,7 @@ def dump_tree(t):
                         leaf = x._data[0].child
                     else:
                         leaf = x._firstbucket
-                    if leaf is None or leaf.__getstate__()[0] != cst[0][0]:
+                    if leaf is None or leaf.__getstate__() != cst[0][0]:
                         out.append(('X', 'single-leaf node: _firstbucket is not its leaf'))
                     else:
                         h = ['T', (('L', ref(leaf)),), x._firstbucket]
